@@ -262,6 +262,14 @@ pub fn replace_lifetime(ty: &mut Type) {
 
             r.lifetime = Some(Lifetime::new("'s", span));
         }
+        // `Box<dyn Trait + 'a>`: the lifetime bound of a trait object names the source lifetime too
+        Type::TraitObject(object) => {
+            for bound in object.bounds.iter_mut() {
+                if let syn::TypeParamBound::Lifetime(lt) = bound {
+                    *lt = Lifetime::new("'s", lt.span());
+                }
+            }
+        }
         _ => (),
     }
 }
